@@ -13,16 +13,18 @@ idle_points = 0
 class IdleQueue(asyncio.Queue):
     """
     Replacement for asyncio.Queue as seen by edzed.simulator: the simulator calls
-    `await queue.get()` exactly when it has nothing left to evaluate - that call is the
-    instant "the simulator is idle".
+    `await queue.get()` when it has nothing left to evaluate; when the queue is empty at that
+    moment the simulator really suspends itself: that call is the instant "the simulator is
+    idle".  (A get() on a non-empty queue returns at once without yielding - not an idle point.)
     """
 
     async def get(self):
         global idle_points
-        idle_points += 1
-        cb = _IDLE_CB[0]
-        if cb is not None:
-            cb(self)
+        if self.empty():
+            idle_points += 1
+            cb = _IDLE_CB[0]
+            if cb is not None:
+                cb(self)
         return await super().get()
 
 
